@@ -30,6 +30,7 @@ ATTACH = {
     "dht_network_manager": "src/dht_network_manager.rs",
     "transport_handle": "src/transport_handle.rs",
     "validation": "src/validation.rs",
+    "dht_records": "src/placement/dht_records.rs",
 }
 
 
